@@ -25,8 +25,10 @@ def sx_in(a, b):
         if type(a) is SymStr:
             return tosym(b).__contains__(a)
         return a in b
-    if tb is SymStr:
+    if tb is SymStr or tb is SymBytes:
         return b.__contains__(a)
+    if tb is bytes and (type(a) is SymInt or type(a) is SymBytes):
+        return SymBytes(tuple(b)).__contains__(a)
     return a in b
 
 
@@ -126,3 +128,27 @@ def sx_isinstance(x, t):
         ts = t if _isinstance(t, tuple) else (t,)
         return bool in ts or int in ts or _isinstance(x, t)
     return _isinstance(x, t)
+
+
+_type = builtins.type
+_chr = builtins.chr
+
+
+def sx_type(x, *rest):
+    """shadow for the 1-argument form of type() in modules that dispatch on `type(x) == bytes`"""
+    if rest:
+        return _type(x, *rest)
+    tx = _type(x)
+    if tx is SymStr:
+        return str
+    if tx is SymBytes:
+        return bytes
+    if tx is SymInt:
+        return int
+    return tx
+
+
+def sx_chr(x):
+    if _type(x) is SymInt:
+        return SymStr((x.e,))
+    return _chr(x)
